@@ -49,7 +49,8 @@ fn drive(opts: &Opts, level: &str, label: &str, workloads: u64, jobs: usize, rul
     };
     let total = run_range(jobs, workloads);
     // determinism self-test: the first workloads again, with another degree of driver parallelism
-    let st_n = workloads.min(if thorough { 60 } else { 12 });
+    // (not repeated when violations were found: they are reported as they are, see below)
+    let st_n = if total.violations.is_empty() { workloads.min(if thorough { 60 } else { 12 }) } else { 0 };
     let again = run_range((jobs / 3).max(1), st_n);
     let d1: std::collections::BTreeMap<u64, u64> = total.digests.iter().cloned().collect();
     let mism: Vec<u64> = again.digests.iter().filter(|(s, d)| d1.get(s) != Some(d)).map(|(s, _)| *s).collect();
